@@ -133,7 +133,10 @@ def run_property(prop, tier='quick', seed=0):
         results = pool.map(_worker, jobs, chunksize=1)
     extra = []
     if hasattr(pmod, 'extra_checks'):
-        extra = pmod.extra_checks(tier, seed, [o for o in opens if o.get('property') == prop])      # list of dicts like contract results (lemmas, concrete data checks)
+        try:
+            extra = pmod.extra_checks(tier, seed, [o for o in opens if o.get('property') == prop])      # bounded harnesses / data obligations
+        except Exception:
+            extra = [{'contract': 'extra_checks', 'status': 'crash', 'error': traceback.format_exc(), 'obligations': []}]
         results += extra
     return report(prop, pmod, results, tier, seed, t0)
 
